@@ -28,5 +28,7 @@ CHECK = {
     "campaigns": [
         {"test": "TestVerifC18", "checks": {"quick": 400000, "thorough": 8000000}},
         {"test": "TestVerifC18Fixed", "fixed": True, "checks": {"quick": 1, "thorough": 1}},
+        # coverage-guided campaign over (expression text, haystack) pairs: thorough tier only, not pinnable to a seed
+        {"fuzz": "FuzzVerifC18", "fuzztime": {"thorough": 240}, "tiers": ["thorough"]},
     ],
 }
